@@ -588,6 +588,8 @@ def ev(t, val: Valuation):
         b = ev(t[1], val)
         if isinstance(b, _CInt) and t[2] == "value":
             return b.value
+        if isinstance(b, _PurePath) and t[2] in ("parent", "name", "stem", "suffix", "parts"):
+            return getattr(b, t[2])
         if isinstance(b, Rec):
             if t[2] in b.fields:
                 return b.fields[t[2]]
@@ -595,6 +597,11 @@ def ev(t, val: Valuation):
         return _h("attr", _key(b), t[2])
     if k == "sub":
         b, i = ev(t[1], val), ev(t[2], val)
+        if isinstance(b, dict):
+            try:
+                return b[i]
+            except Exception:
+                raise EvalError("key not in the model dictionary") from None
         if isinstance(b, (tuple, bytes, str)) and isinstance(i, tuple) and i and i[0] == "slice" and all(x is None or (isinstance(x, int) and not isinstance(x, bool)) for x in i[1:]):
             return b[slice(*i[1:])]
         if isinstance(b, (tuple, bytes, str)) and isinstance(i, int):
@@ -709,6 +716,8 @@ _MODELS = {
     ".lower": lambda s: _txt(s).lower(), ".upper": lambda s: _txt(s).upper(), ".casefold": lambda s: _txt(s).casefold(),
     ".strip": lambda s, *a: _txt(s).strip(*a), ".lstrip": lambda s, *a: _txt(s).lstrip(*a), ".rstrip": lambda s, *a: _txt(s).rstrip(*a),
     ".replace": lambda s, a, b, *c: _txt(s).replace(a, b, *c), ".find": lambda s, *a: _txt(s).find(*a),
+    ".joinpath": lambda p_, *a: _path(p_).joinpath(*a), ".with_name": lambda p_, n: _path(p_).with_name(n),
+    ".with_suffix": lambda p_, n: _path(p_).with_suffix(n), "ext:pathlib.Path": lambda *a: _PurePath(*a),
     ".decode": lambda s, *a, **k: _buf(s).decode(*a, **k), ".encode": lambda s, *a, **k: _str(s).encode(*a, **k),
     ".index": lambda s, *a: _txt(s).index(*a), ".rfind": lambda s, *a: _txt(s).rfind(*a), ".count": lambda s, *a: _txt(s).count(*a),
     ".splitlines": lambda s, *a: tuple(_txt(s).splitlines(*a)), ".isdigit": lambda s: _txt(s).isdigit(), ".title": lambda s: _txt(s).title(),
@@ -750,6 +759,15 @@ def _buf(x):
     if not isinstance(x, (bytes, bytearray)):
         raise TypeError("not a buffer")
     return bytes(x)
+
+
+from pathlib import PurePosixPath as _PurePath  # noqa: E402  (a value model of paths: no file system access)
+
+
+def _path(x):
+    if not isinstance(x, _PurePath):
+        raise TypeError("not a path")
+    return x
 
 
 def _str(x):
